@@ -70,7 +70,7 @@ def run_proofs(report, prop, modules, timeout_ms=None):
         # second opinion with other seeds / a longer budget before it is reported (at most 3 per function)
         for r in recs:
             shaky = [o for o in r["obligations"] if o["result"] == "unknown" and ob_key(r["function"], o) in base]
-            if shaky and len(shaky) <= 3 and not rebase and time.time() - t0 < 240:
+            if shaky and len({o["name"] for o in shaky}) <= 3 and not rebase and time.time() - t0 < 240:
                 got = prove.retry_function(mod, r["function"], [o["name"] for o in shaky])
                 for o in shaky:
                     if o["name"] in got:
